@@ -1405,12 +1405,14 @@ int EGLPNUM_TYPENAME_ILLbasis_factor (
 			{
 				eindex = lp->vindex[lp->O->rowmap[singr[i]]];
 				lindex = singc[i];
-				ltype = lp->vtype[lp->baz[lindex]];
-
-				if (ltype == VBOUNDED || ltype == VLOWER || ltype == VARTIFICIAL ||
-						ltype == VFIXED)
+				/* where the ejected column is parked follows from its bounds; they
+				 * are read from the problem data because this routine is also
+				 * reached (ILLlib_addrows) when the simplex structure's own type
+				 * array does not exist or predates the last added rows */
+				ltype = lp->baz[lindex];
+				if (EGLPNUM_TYPENAME_EGlpNumIsNeqq (lp->O->lower[ltype], EGLPNUM_TYPENAME_ILL_MINDOUBLE))
 					lvstat = STAT_LOWER;
-				else if (ltype == VUPPER)
+				else if (EGLPNUM_TYPENAME_EGlpNumIsNeqq (lp->O->upper[ltype], EGLPNUM_TYPENAME_ILL_MAXDOUBLE))
 					lvstat = STAT_UPPER;
 				else
 					lvstat = STAT_ZERO;
